@@ -193,6 +193,15 @@ class History(object):
             if cols != mm["cols"] or not same:
                 return Failure("%s: db[%r] returns %r / %r, stored is %r / %r" % (what, fid, cols, attrs, mm["cols"], mm["attrs"]),
                                sig={"kind": "lookup-stale"})
+        # ids that are no longer (or not yet) stored are absent for look-ups as well
+        from gffutils.exceptions import FeatureNotFoundError
+
+        for fid in sorted(self.ever_stored - set(self.m.store))[:6]:
+            try:
+                f = self.db[fid]
+            except FeatureNotFoundError:
+                continue
+            return Failure("%s: db[%r] returns %r although no feature is stored under that id" % (what, fid, str(f)), sig={"kind": "lookup-ghost"})
         if sorted(self.db.featuretypes()) != sorted(set(mm["cols"][2] for mm in self.m.store.values())):
             return Failure("%s: featuretypes() = %r" % (what, sorted(self.db.featuretypes())), sig={"kind": "distinct-stale"})
         if sorted(self.db.seqids()) != sorted(set(mm["cols"][0] for mm in self.m.store.values())):
